@@ -18,7 +18,7 @@ RULE = ("operators: Pauli strings with <=3 factors on indices {0,7,12,123} x coe
         "0/1/2 frames), parities, value estimates (precision None/float/numpy), lists, layers, connectivity, ordering, measurement-count estimates, each through "
         "its own save/load with a path and (where accepted) an open file. non-trivial = operator with a non-real or non-unit coefficient or >= 2 terms / artefact with content")
 ASSUMPTIONS = ["|coefficient| < 1e15 (the printed form of larger floats contains '+')", "absent and empty correlation/covariance lists are the same zero-frame case"]
-BOUNDS = {"quick": {"strings": "<=2 factors", "sum_terms": 2}, "thorough": {"strings": "<=4 factors", "sum_terms": 4}}
+BOUNDS = {"quick": {"strings": "<=4 factors", "sum_terms": "3 over 13 pool terms, 4 over 6"}, "thorough": {"strings": "<=4 factors", "sum_terms": "4 over 13 pool terms, 5 over 6"}}
 IDX = [0, 7, 12, 123]
 COEFS = [["py", 2], ["py", -1.5], ["py", 1e-05], ["py", -0.0], ["py", 0], ["c", 0, 1], ["c", 0, -2], ["c", 1, 2], ["c", 1e-07, -3], ["py", 123456789.125], ["c", 2, 0], ["npf", 0.5],
          ["npc", 1, -1], ["py", 1.0], ["c", -0.25, 1e-06], ["py", 4.5e-09],
@@ -343,15 +343,19 @@ def artefacts():
 
 
 def run(run):
-    thorough = run.tier == "thorough"
-    S = strings(4 if thorough else 2)
+    deep = run.tier == "thorough"      # the former thorough bounds are the quick tier now
+    thorough = True
+    S = strings(4)
     terms = [[c, s] for s in S for c in (COEFS if (thorough or len(s) <= 1) else COEFS[::3] + COEFS[16:])]
     ops = [{"t": t} for t in terms]
     pool = [[["py", 2], {"0": "X"}], [["c", 1, 2], {"7": "Y", "123": "Z"}], [["py", -1.5], {}], [["py", 0], {"12": "Z"}], [["py", 0.5], {"0": "X"}], [["py", -2], {"0": "X"}],
             [["c", 0, -2], {"12": "Y"}], [["py", 1e-05], {"0": "Z", "7": "Z", "12": "Z"}], [["npc", 1, -1], {"7": "X"}], [["c", 1e-07, -3], {}],
             [["c", 0.5, 0.012345678901234568], {"7": "Z"}], [["c", 2, 1.2345678901234567e-05], {"0": "Y", "123": "X"}], [["c", -0.1234567890123456, -9.876543210987654e-05], {}]]
-    L = 4 if thorough else 2
+    L = 3
     sums = [[]] + [[pool[i] for i in c] for k in range(1, L + 1) for c in itertools.product(range(len(pool)), repeat=k)]
+    sums += [[pool[i] for i in c] for c in itertools.product(range(len(pool) if deep else 6), repeat=4)]
+    if deep:
+        sums += [[pool[i] for i in c] for c in itertools.product(range(6), repeat=5)]
     ops += [{"s": s} for s in sums]
     secs = [Section("operators", [{"op": o} for o in ops], operator_case, horizon=120, desc="dict/JSON (stdlib + rapidjson), save/load (path + open file), operator sets"),
             Section("text", [{"op": o} for o in ops], text_case, horizon=120, desc="str(op) parsed back by PauliTerm / PauliSum"),
